@@ -50,7 +50,7 @@ Proof. intros [H|[H|H]]; discriminate. Qed.
 
 Section I.
   Variable faults : nat -> fault.
-  Variable lst : nat.
+  Variable lst : list lbeh.
   Variable n0 : nat.
   Variable base : list (nat * nat).
   Notation Inv := (Inv n0 base).
@@ -64,7 +64,7 @@ Section I.
   Lemma inv_inval : forall s cid st0, Inv s -> s_cur s = Some (cid, st0) -> Inv (inval_state lst s cid).
   Proof.
     intros s cid st0 ((W1 & W2 & W3) & (F1 & F2 & F3) & L) Hc. unfold inval_state.
-    destruct (negb (Nat.eqb lst 3)); (split; [|split]).
+    destruct (pool_inv lst); (split; [|split]).
     - split; [|split]; cbn.
       + intros id s0 Hin. apply in_app_or in Hin. destruct Hin as [Hin|[Hin|[]]]; [|discriminate].
         destruct (W1 _ _ Hin). lia.
@@ -90,7 +90,7 @@ Section I.
   Lemma inv_handle : forall f s s' c, Inv s -> handle lst f s = (s', c) -> Inv s'.
   Proof.
     intros f s s' c HI H.
-    destruct (handle_spec _ _ _ _ _ H) as [[_ ->]|[(_ & _ & ->)|(_ & cid & st0 & E & ->)]]; auto.
+    destruct (handle_spec _ _ _ _ _ H) as (_ & [[_ ->]|[(_ & _ & ->)|(_ & cid & st0 & E & ->)]]); auto.
     eapply inv_inval; eauto.
   Qed.
 
@@ -100,7 +100,7 @@ Section I.
     intros k cid st0 s s' c HI Hc H.
     assert (Hcid : n0 <= cid). { destruct HI as (_ & (_ & F2 & _) & _). eapply F2; eauto. }
     pose proof (inv_called k cid s HI (fun _ => Hcid)) as HI1.
-    destruct (coh_spec faults lst _ _ _ _ _ _ Hc H) as [(_ & -> & _)|[(_ & -> & _)|(_ & -> & _)]]; auto.
+    destruct (coh_spec faults lst _ _ _ _ _ _ Hc H) as [(_ & -> & _)|[(_ & _ & -> & _)|(_ & _ & -> & _)]]; auto.
     eapply inv_inval; eauto.
   Qed.
 
@@ -270,47 +270,53 @@ Proof.
 Qed.
 
 (* the shape of the state after a disconnect hit the LIVE connection *)
-Definition disc_shape (lst : nat) (s s' : st) : Prop :=
+Definition disc_shape (lst : list lbeh) (s s' : st) : Prop :=
   s_idle s' = s_idle s ++ [None] /\ s_nconn s' = s_nconn s /\ s_cur s' = None /\
-  s_clock s' = (if negb (Nat.eqb lst 3) then S (s_clock s) else s_clock s) /\
-  s_invt s' = (if negb (Nat.eqb lst 3) then S (s_clock s) else s_invt s).
+  s_clock s' = (if pool_inv lst then S (s_clock s) else s_clock s) /\
+  s_invt s' = (if pool_inv lst then S (s_clock s) else s_invt s).
 
 Section D.
   Variable faults : nat -> fault.
-  Variable lst : nat.
+  Variable lst : list lbeh.
 
-  Lemma coh_disc_shape : forall k cid st0 s s', s_cur s = Some (cid, st0) ->
-    call_or_handle faults lst k cid s = (s', RDisc) -> disc_shape lst s s'.
+  Lemma coh_disc_shape : forall k cid st0 s s' c, s_cur s = Some (cid, st0) ->
+    call_or_handle faults lst k cid s = (s', c) -> is_disc c = true -> disc_shape lst s s'.
   Proof.
-    intros k cid st0 s s' Hc H.
-    destruct (coh_spec faults lst _ _ _ _ _ _ Hc H) as [(E & _)|[(E & _)|(_ & -> & _)]]; try discriminate.
-    unfold disc_shape, inval_state. cbn. destruct (negb (Nat.eqb lst 3)); auto.
+    intros k cid st0 s s' c Hc H Hd.
+    destruct (coh_spec faults lst _ _ _ _ _ _ Hc H) as [(-> & _)|[(_ & E & _)|(_ & _ & -> & _)]];
+      try discriminate; try congruence.
+    unfold disc_shape, inval_state. cbn. destruct (pool_inv lst); auto.
   Qed.
 
-  Lemma exec_live_disc_shape : forall s s', s_cur s <> None -> exec_path faults lst s = (s', RDisc) -> disc_shape lst s s'.
+  Lemma exec_live_disc_shape : forall s s' c, s_cur s <> None -> exec_path faults lst s = (s', c) ->
+    is_disc c = true -> disc_shape lst s s'.
   Proof.
-    intros s s' Hc H. destruct (s_cur s) as [[cid st0]|] eqn:E; [|congruence].
-    rewrite (exec_live faults lst s cid st0 E) in H. destruct (inactive_check s); [discriminate|].
+    intros s s' c Hc H Hd. destruct (s_cur s) as [[cid st0]|] eqn:E; [|congruence].
+    rewrite (exec_live faults lst s cid st0 E) in H.
+    destruct (inactive_check s); [injection H as _ <-; discriminate|].
     destruct (autobegin_fields s) as (F1 & _ & _ & _ & F5 & F6 & F7 & F8 & _).
     assert (Hc2 : s_cur (autobegin s) = Some (cid, st0)) by congruence.
-    destruct (coh_disc_shape _ _ _ _ _ Hc2 H) as (P1 & P2 & P3 & P4 & P5).
+    destruct (coh_disc_shape _ _ _ _ _ _ Hc2 H Hd) as (P1 & P2 & P3 & P4 & P5).
     unfold disc_shape. rewrite P1, P2, P3, P4, P5, F5, F6, F7, F8. auto.
   Qed.
 
-  Lemma step_live_disc_shape : forall o s s', s_cur s <> None -> step faults lst o s = (s', RDisc) -> disc_shape lst s s'.
+  Lemma step_live_disc_shape : forall o s s' c, s_cur s <> None -> step faults lst o s = (s', c) ->
+    is_disc c = true -> disc_shape lst s s'.
   Proof.
-    intros o s s' Hc H. destruct o; cbn [step] in H.
-    - apply exec_live_disc_shape; auto.
-    - unfold begin_op in H. destruct (s_txn s); try discriminate.
-      rewrite (ensure_live faults lst s Hc) in H. discriminate.
-    - unfold commit_op in H. destruct (s_txn s); try discriminate.
+    intros o s s' c Hc H Hd. destruct o; cbn [step] in H.
+    - eapply exec_live_disc_shape; eauto.
+    - unfold begin_op in H. destruct (s_txn s); try (injection H as _ <-; discriminate).
+      rewrite (ensure_live faults lst s Hc) in H. injection H as _ <-. discriminate.
+    - unfold commit_op in H. destruct (s_txn s); try (injection H as _ <-; discriminate).
       destruct (s_cur s) as [[cid st0]|] eqn:E; [|congruence].
       destruct (call_or_handle faults lst K_COMMIT cid s) as [s1 c1] eqn:Hcoh.
-      destruct c1; try discriminate. injection H as <-. exact (coh_disc_shape _ _ _ _ _ E Hcoh).
-    - unfold rollback_op in H. destruct (s_txn s); try discriminate.
+      assert (X : c = ROk \/ s' = set_txn s1 TInactive [] /\ c = c1) by (destruct c1; injection H as <- <-; auto).
+      destruct X as [->|[-> ->]]; [discriminate|]. exact (coh_disc_shape _ _ _ _ _ _ E Hcoh Hd).
+    - unfold rollback_op in H. destruct (s_txn s); try (injection H as _ <-; discriminate).
       destruct (s_cur s) as [[cid st0]|] eqn:E; [|congruence].
       destruct (call_or_handle faults lst K_ROLLBACK cid s) as [s1 c1] eqn:Hcoh.
-      destruct c1; try discriminate. injection H as <-. exact (coh_disc_shape _ _ _ _ _ E Hcoh).
+      assert (X : c = ROk \/ s' = set_txn s1 TNone (s_nested s1) /\ c = c1) by (destruct c1; injection H as <- <-; auto).
+      destruct X as [->|[-> ->]]; [discriminate|]. exact (coh_disc_shape _ _ _ _ _ _ E Hcoh Hd).
     - unfold savepoint_op in H.
       assert (Hb : exists s1, (match s_txn s with TNone => begin_op faults lst s | _ => (s, ROk) end) = (s1, ROk) /\
                        same_pool s s1 /\ s_cur s1 <> None).
@@ -319,24 +325,26 @@ Section D.
         unfold begin_op. rewrite Et, (ensure_live faults lst s Hc). eexists. split; [reflexivity|]. split; [exact Refl|exact Hc]. }
       destruct Hb as (s1 & Hb1 & (Q1 & Q2 & Q3 & Q4 & Q5) & Hc1). rewrite Hb1 in H.
       destruct (exec_path faults lst s1) as [s2 c2] eqn:He.
-      destruct c2; try discriminate. injection H as <-.
-      destruct (exec_live_disc_shape _ _ Hc1 He) as (P1 & P2 & P3 & P4 & P5).
+      assert (X : c = ROk \/ s' = s2 /\ c = c2) by (destruct c2; injection H as <- <-; auto).
+      destruct X as [->|[-> ->]]; [discriminate|].
+      destruct (exec_live_disc_shape _ _ _ Hc1 He Hd) as (P1 & P2 & P3 & P4 & P5).
       unfold disc_shape. rewrite P1, P2, P3, P4, P5, Q1, Q2, Q4, Q5. auto.
-    - unfold rollback_sp_op in H. destruct (s_nested s) as [|a rest]; [discriminate|].
-      destruct (a && _ && _); [|discriminate].
-      destruct (exec_path faults lst s) as [s1 c1] eqn:He. injection H as <- ->.
-      exact (exec_live_disc_shape _ _ Hc He).
-    - unfold release_sp_op in H. destruct (s_nested s) as [|[|] rest]; try discriminate.
+    - unfold rollback_sp_op in H. destruct (s_nested s) as [|a rest]; [injection H as _ <-; discriminate|].
+      destruct (a && _ && _); [|injection H as _ <-; discriminate].
+      destruct (exec_path faults lst s) as [s1 c1] eqn:He. injection H as <- <-.
+      exact (exec_live_disc_shape _ _ _ Hc He Hd).
+    - unfold release_sp_op in H. destruct (s_nested s) as [|[|] rest]; try (injection H as _ <-; discriminate).
       destruct (exec_path faults lst s) as [s1 c1] eqn:He.
-      destruct c1; try discriminate. injection H as <-.
-      exact (exec_live_disc_shape _ _ Hc He).
+      assert (X : c = ROk \/ s' = set_nested s1 (false :: rest) /\ c = c1) by (destruct c1; injection H as <- <-; auto).
+      destruct X as [->|[-> ->]]; [discriminate|].
+      exact (exec_live_disc_shape _ _ _ Hc He Hd).
   Qed.
 
-  Lemma disc_establishes_inv : forall s s', WF s -> lst <> 3 -> disc_shape lst s s' ->
+  Lemma disc_establishes_inv : forall s s', WF s -> pool_inv lst = true -> disc_shape lst s s' ->
     Inv (s_nconn s') (s_log s') s'.
   Proof.
     intros s s' (W1 & W2 & W3) Hl (P1 & P2 & P3 & P4 & P5).
-    assert (E : negb (Nat.eqb lst 3) = true) by (apply negb_true_iff, Nat.eqb_neq; exact Hl).
+    pose proof Hl as E.
     rewrite E in P4, P5. split; [|split].
     - split; [|split].
       + intros id st0 Hin. rewrite P1 in Hin. apply in_app_or in Hin. destruct Hin as [Hin|[Hin|[]]]; [|discriminate].
@@ -352,14 +360,14 @@ Section D.
   Qed.
 
   (* T2 *)
-  Theorem older_pooled_connections_not_reused : forall o s s1,
-    WF s -> s_cur s <> None -> lst <> 3 -> step faults lst o s = (s1, RDisc) ->
+  Theorem older_pooled_connections_not_reused : forall o s s1 c,
+    WF s -> s_cur s <> None -> pool_inv lst = true -> step faults lst o s = (s1, c) -> is_disc c = true ->
     forall h, exists new,
       s_log (final faults lst h s1) = new ++ s_log s1 /\
       Forall (fun kc => use_kind (fst kc) -> s_nconn s1 <= snd kc) new.
   Proof.
-    intros o s s1 W Hc Hl H h.
-    pose proof (disc_establishes_inv s s1 W Hl (step_live_disc_shape o s s1 Hc H)) as HI.
+    intros o s s1 c W Hc Hl H Hd h.
+    pose proof (disc_establishes_inv s s1 W Hl (step_live_disc_shape o s s1 c Hc H Hd)) as HI.
     destruct (inv_final faults lst _ _ h s1 HI) as (_ & _ & L). exact L.
   Qed.
 End D.
